@@ -144,7 +144,8 @@ Record case := mk_case {
   o_openstmts : nat;      (* driver statements open at quiescence (recording driver) *)
   o_wrongrows : nat;      (* operations that returned no error but other rows than without the cache *)
   o_races : nat;          (* data races the Go race detector reported while the case ran *)
-  c_plumb : list plumb    (* session-plumbing observations (C14_Plumb.v); [] for schedule cases *)
+  c_plumb : list plumb;   (* session-plumbing observations (C14_Plumb.v); [] for schedule cases *)
+  c_mask : nat            (* known-finding outcomes tolerated in this evaluation (0 = none) *)
 }.
 
 Definition model_agrees (c : case) : bool :=
@@ -176,21 +177,31 @@ Definition dflt_win := mkW 0 false [] false CNone.
 Definition cur_op (progs : list (list op)) (w : list win) (t : nat) : option op :=
   nth_error (nth t progs []) (w_idx (nth t w dflt_win)).
 
-Definition result_allowed (o : op) (w : win) (closecalled : bool) (r : result) : bool :=
+(* [mask]: a case whose input matches a known finding is evaluated twice: once strictly (mask 0,
+   reported under the finding's signature) and once with exactly the finding's outcome tolerated, so
+   that a known finding cannot hide a failure of another clause on the same input.
+   bit 0: "sql: statement is closed" without a Close (close-races-use);
+   bit 1: the panic of a QueryRow whose prepare failed (row-swallows-error). *)
+Definition tol_closed (mask : nat) : bool := Nat.odd mask.
+Definition tol_rowpanic (mask : nat) : bool := Nat.odd (Nat.div2 mask).
+
+Definition result_allowed (mask : nat) (o : op) (w : win) (closecalled : bool) (r : result) : bool :=
   match o with
   | OReset | OClose => result_eqb r ROk
-  | OExec q _ _ =>
+  | OExec q _ ev =>
     match r with
     | ROk => negb (w_ownfail w) && choice_eqb (w_exec w) CExecOk
     | RErrPrep => memb q (w_fails w) && choice_eqb (w_exec w) CNone
     | RErrBad => choice_eqb (w_exec w) CExecBad
     | RErrOther => choice_eqb (w_exec w) CExecErr
-    | RErrInvalid | RErrClosed => closecalled && choice_eqb (w_exec w) CNone && negb (w_ownfail w)
-    | RPanic | RNilStmt => false
+    | RErrInvalid => closecalled && choice_eqb (w_exec w) CNone && negb (w_ownfail w)
+    | RErrClosed => (closecalled || tol_closed mask) && choice_eqb (w_exec w) CNone && negb (w_ownfail w)
+    | RPanic => tol_rowpanic mask && negb ev && choice_eqb (w_exec w) CNone && (memb q (w_fails w) || closecalled)
+    | RNilStmt => false
     end
   end.
 
-Definition spec_step (progs : list (list op)) (a : acc) (e : vev) : acc :=
+Definition spec_step (mask : nat) (progs : list (list op)) (a : acc) (e : vev) : acc :=
   let w := a_win a in
   let bad := mkA w (a_closecalled a) (a_calls a) (a_fails a) (a_evicts a) (a_cuts a) false in
   match e with
@@ -239,14 +250,14 @@ Definition spec_step (progs : list (list op)) (a : acc) (e : vev) : acc :=
       mkA (upd w t (mkW (S (w_idx wt)) false [] false CNone))
           (a_closecalled a) (a_calls a) (a_fails a) (a_evicts a)
           (match o with OExec _ _ _ => a_cuts a | _ => S (a_cuts a) end)
-          (a_ok a && w_active wt && result_allowed o wt (a_closecalled a) r
-           && (negb (w_ownfail wt) || result_eqb r RErrPrep))
+          (a_ok a && w_active wt && result_allowed mask o wt (a_closecalled a) r
+           && (negb (w_ownfail wt) || result_eqb r RErrPrep || (tol_rowpanic mask && result_eqb r RPanic)))
     | None => bad
     end
   end.
 
-Definition spec_fold (progs : list (list op)) (tr : list vev) : acc :=
-  fold_left (spec_step progs) tr
+Definition spec_fold (mask : nat) (progs : list (list op)) (tr : list vev) : acc :=
+  fold_left (spec_step mask progs) tr
             (mkA (map (fun _ => dflt_win) progs) false [] [] [] 0 true).
 
 (* "A statement text is prepared at most once per cache generation": over a whole history,
@@ -262,7 +273,7 @@ Definition count_ok (calls : list (nat * bool)) (fails evicts : list nat) (cuts 
           (texts_of calls).
 
 Definition spec_holds (c : case) : bool :=
-  let a := spec_fold (c_progs c) (c_trace c) in
+  let a := spec_fold (c_mask c) (c_progs c) (c_trace c) in
   negb (o_hang c)
   && a_ok a
   && list_eqb Nat.eqb (map w_idx (a_win a)) (map (fun p => length p) (c_progs c))
